@@ -36,9 +36,3 @@ Proof.
   rewrite tools_epsilon_to_b_def, tools_b_to_epsilon_def, Tmat_of_strain by (try assumption; apply upper_minv; assumption).
   apply minv_invol; exact HD.
 Qed.
-Lemma tools_ubi_to_u_and_eps_eq A c :
-  tools_ubi_to_u_and_eps A c =
-  (tools_ubi_to_u A, tools_b_to_epsilon (minv (mmul A (tools_ubi_to_u A))) c).
-Proof.
-  unfold tools_ubi_to_u_and_eps, tools_ubi_to_u; cbv zeta. reflexivity.
-Qed.
